@@ -37,7 +37,13 @@ def composite_unmarshallers(prog: Program):
 
 
 def is_union_like(prog, f) -> bool:
-    """The routine tries members in a loop and returns the first result (no container is built)."""
+    """The routine serves the union row of a dispatch table, or tries members in a loop and returns the first result
+    (no container is built)."""
+    if f.cls is not None:
+        for d in ("marshal", "unmarshal"):
+            for r in C.handlers(prog, d):
+                if r.pred_name == "isuniontype" and r.routine is not None and r.routine.qualname == f.cls.qualname:
+                    return True
     for p, r in P.returns(P.paths_of(prog, f)):
         a = K.applied_slot(r)
         if a and a[0] == "each":
